@@ -6,7 +6,7 @@ import Qv.Model.AnnealFront
   (rational coefficients, dyadic so that `float(v)` is exact), temperatures as IEEE-754 bit patterns;
   returns the results and the arguments the front end hands to the C extension;
 * `c11_kernel_quso`, `c11_kernel_puso` — the C kernels alone on arrays given as bit patterns. -/
-namespace Qv.Drv
+namespace Qv.Drv.C11
 open Lean Qv Qv.Kernel Qv.Anneal
 
 /-- exact rational value of a finite double (from its bit pattern) -/
@@ -152,10 +152,10 @@ def handlePcg (j : Json) : Except String Json := do
     (r, s.2 ++ [u.toNat])
   pure (natsJson out)
 
-end Qv.Drv
+end Qv.Drv.C11
 
-namespace Qv.Drv
+namespace Qv.Drv.C11
 def handlersC11 : List (String × (Lean.Json → Except String Lean.Json)) :=
   [("c11_anneal", handleAnneal), ("c11_kernel_quso", handleKernelQuso),
    ("c11_kernel_puso", handleKernelPuso), ("c11_pcg", handlePcg)]
-end Qv.Drv
+end Qv.Drv.C11
